@@ -242,6 +242,8 @@ pub fn accept_for(key: &str) -> String {
 pub enum Mode {
     Blocking,
     NonBlocking,
+    /// poll once; if nothing has arrived yet, wait for the next message with the blocking receive
+    Mixed,
 }
 
 /// Runs the real handler over a scripted socket. Returns (events seen by the handler, bytes written, reads issued, none_ok)
@@ -279,6 +281,31 @@ pub fn run_endpoint(steps: Vec<Step>, mode: Mode, stop_after_msgs: Option<usize>
                         break;
                     }
                 },
+                Mode::Mixed => {
+                    let r: Result<humphrey_ws::Message, WebsocketError> = match ws.recv_nonblocking() {
+                        Restion::Ok(m) => Ok(m),
+                        Restion::Err(e) => Err(e),
+                        Restion::None => ws.recv(),
+                    };
+                    match r {
+                        Ok(m) => {
+                            msgs += 1;
+                            ev2.lock().unwrap().push(Ev::Msg(m.is_text(), m.bytes().to_vec()));
+                        }
+                        Err(WebsocketError::ConnectionClosed) => {
+                            ev2.lock().unwrap().push(Ev::Closed);
+                            break;
+                        }
+                        Err(WebsocketError::ReadError) => {
+                            ev2.lock().unwrap().push(Ev::ReadErr);
+                            break;
+                        }
+                        Err(e) => {
+                            ev2.lock().unwrap().push(Ev::OtherErr(format!("{:?}", e)));
+                            break;
+                        }
+                    }
+                }
                 Mode::NonBlocking => {
                     n += 1;
                     if n > polls {
@@ -603,6 +630,26 @@ fn endpoint_family(st: &mut Stats, maxlen: usize, data_lens: &[usize], nb_dev: u
                             q[j] = 1;
                             pend_plans.push(q);
                         }
+                    }
+                }
+                // blocking and non-blocking receive mixed on one connection: nothing has arrived at each poll (the
+                // client is slow), the endpoint then waits with the blocking receive, which must deliver the same
+                // messages as blocking receive alone (a poll that found nothing must leave the socket as it was)
+                {
+                    let mut steps = vec![];
+                    for f in frames.iter() {
+                        steps.push(Step::Pending);
+                        steps.push(Step::Pending);
+                        steps.push(Step::Seg(f.2.clone()));
+                    }
+                    s.evaluations += 1;
+                    s.transitions += seq.len() as u64;
+                    let want = reference(&frames, None);
+                    let r = std::panic::catch_unwind(|| run_endpoint(steps, Mode::Mixed, None, Some("dGhlIHNhbXBsZSBub25jZQ=="), 0));
+                    let ctx = || json!({"client_frames": format!("{:?}", seq), "data_len": dl, "mode": "poll, then blocking receive when nothing had arrived"});
+                    match r {
+                        Err(_) => s.violation("mixed receive: endpoint panicked", ctx),
+                        Ok((ev, out, _)) => compare(&mut s, "mixed receive", seq, ctx, &want, &ev, &out),
                     }
                 }
                 for pp in &pend_plans {
